@@ -792,3 +792,56 @@ def complex_netcdf_rule(ctx, rid):
             rr.ok("%s: %s carries invalid_netcdf=True to to_netcdf when the data is complex" % (f.qualname, kname))
         elif not rr.findings:
             rr.bad(ctx.finding(rid, f, c, "invalid_netcdf is never set to True before to_netcdf", construct="invalid_netcdf missing"), "option set")
+
+
+def reload_reads_rule(ctx, rid, cls="Harvester"):
+    """C05.R8 / C15.R11: the reload called before a synced merge really reads the file.  A path through load_full_* that
+    finds the file present and returns without reading it is a cache; a cache validated by state that all objects of the
+    class share (a class-level container mutated through self) cannot tell which object holds which version and is
+    reported; a per-object cache is beyond this analysis (exit 2)."""
+    lname, loader = {"Harvester": ("load_full_ds", MAN + ".load_ds"), "Sampler": ("load_full_df", MAN + ".load_df")}[cls]
+    rr = ctx.rule(rid, "%s.%s: when the file is there it is read -- no path skips the read on the strength of state shared between objects" % (cls, lname), floor=1)
+    prog = ctx.prog
+    f = prog.need_func("%s.%s.%s" % (FARM, cls, lname))
+    g = build_cfg(f.node)
+    ctx.touch(f, g)
+    reads = [n for n, c, nm in all_calls(ctx, f, g) if nm == loader]
+    need(reads, "anchor lost: %s does not call %s" % (lname, loader))
+    exist_tests = [n for n in g.nodes if n.kind == "test" and any(isinstance(c, ast.Call) and norm(c.func) in ("os.access", "os.path.exists", "os.path.isfile") for c in ast.walk(n.ast))]
+    need(exist_tests, "idiom changed: %s does not test for the file" % lname)
+    E = exist_tests[0]
+    present = [b for b, l in g.succ[E.id] if l == "t"]
+    need(present and not (isinstance(E.ast, ast.UnaryOp) and isinstance(E.ast.op, ast.Not)), "idiom changed: existence test `%s` of %s" % (norm(E.ast)[:50], lname))
+    # a read before the existence test (try / except style) counts as well
+    if all(g.dominates(r.id, E.id) for r in reads[:1]) and reads[0].id != E.id:
+        rr.ok("%s reads first and tests afterwards" % lname)
+        return rr
+    skip = g.reachable(start=present[0], blocked_nodes=[r.id for r in reads], skip_labels=("exc",)) | ({present[0]} - {r.id for r in reads})
+    early = [n for n in g.nodes if n.kind == "test" and n.id != E.id and n.id in g.reachable(skip_labels=("exc",)) and g.exit.id in g.reachable(start=n.id, blocked_nodes=[r.id for r in reads] + [E.id], skip_labels=("exc",))
+             and any(r.id in g.reachable(start=n.id) or True for r in reads) and not any(isinstance(c, ast.Call) and norm(c.func) in ("os.access", "os.path.exists", "os.path.isfile") for c in ast.walk(n.ast))
+             and not (g.dominates(n.id, E.id) and all(isinstance(x, ast.Compare) and isinstance(x.ops[0], (ast.Is, ast.IsNot)) and isinstance(x.comparators[0], ast.Constant) and x.comparators[0].value is None and norm(x.left) in f.params for x in [n.ast]))]
+    if g.exit.id not in skip and not early:
+        rr.ok("%s: every path that finds the file reads it" % lname)
+        return rr
+    # which state decides the skip?
+    deciders = [n for n in g.nodes if n.kind == "test" and (n.id in skip or n in early)]
+    shared = []
+    klass = f.cls
+    for n in deciders:
+        for x in ast.walk(n.ast):
+            if isinstance(x, ast.Attribute) and isinstance(x.value, ast.Name) and x.value.id == "self" and klass is not None:
+                for c_ in klass.mro():
+                    v = c_.attrs.get(x.attr)
+                    if v is not None and (isinstance(v, (ast.Dict, ast.List, ast.Set)) or (isinstance(v, ast.Call) and norm(v.func) in ("dict", "list", "set", "collections.defaultdict", "defaultdict", "collections.OrderedDict"))):
+                        # mutated through self somewhere?
+                        mut = any(isinstance(s_, ast.Subscript) and isinstance(s_.ctx, ast.Store) and norm(s_.value) == "self." + x.attr for m_ in klass.methods.values() for s_ in ast.walk(m_.node)) or \
+                            any(isinstance(c2, ast.Call) and isinstance(c2.func, ast.Attribute) and norm(c2.func.value) == "self." + x.attr and c2.func.attr in ("update", "setdefault", "append", "add", "pop", "clear") for m_ in klass.methods.values() for c2 in ast.walk(m_.node))
+                        if mut:
+                            shared.append((n, x.attr))
+    if shared:
+        n, attr = shared[0]
+        rr.bad(ctx.finding(rid, f, n.ast, "%s skips reading the file when `%s` holds, and `self.%s` is one container shared by every %s object (class-level, mutated through self): after another object on the same file has saved, this object takes the other's record for its own, "
+                           "keeps its stale copy, merges into it and overwrites the file -- the other object's points are dropped" % (lname, norm(n.ast)[:70], attr, cls), construct="reload-skipped-shared-state"), "reload reads")
+    else:
+        raise AnalysisError("idiom changed: %s can return without reading a file that is there (a cache decided by `%s`); whether that cache is sound is not analysed" % (lname, "; ".join(norm(n.ast)[:50] for n in deciders[:2])))
+    return rr
